@@ -66,7 +66,7 @@ fn perspective_case(rng: &mut Rng, rep: &mut Report) {
         let ndc = c[2] as f64 / c[3] as f64;
         if let Some((lz, lndc)) = last {
             // strictly increasing wherever f32 can resolve the difference
-            let resolvable = (z as f64 - lz) / (z as f64) > 1e-4 && fard / nd < 2e3;
+            let resolvable = (z as f64 - lz) / (z as f64) > 2e-4 && fard / nd < 1e3;
             if ndc < lndc - 1e-6 || (resolvable && !(ndc > lndc)) {
                 rep.violation("proj.depth_order_not_preserved", format!("depths {lz} < {z} map to z/w {lndc} and {ndc}"), cj());
                 return;
@@ -95,7 +95,7 @@ fn perspective_case(rng: &mut Rng, rep: &mut Report) {
         // the rounding of e22 = (f+n)/(f−n) and e23 moves NDC z by about
         // 1.2e-7·e22 (2e-4 when far/near = 1.001): the band follows e22, as
         // the tolerance of the near/far check above does
-        let zband = 2e-5 + 4e-7 * (1.0 + (fard + nd) / (fard - nd));
+        let zband = 4e-5 + 8e-7 * (1.0 + (fard + nd) / (fard - nd));
         if margins[2..].iter().any(|m| m.abs() < 1e-4) || m_near.abs() < zband || m_far.abs() < zband {
             rep.skip("probe.within_1e-4_of_a_face");
             continue;
@@ -137,7 +137,7 @@ fn ortho_case(rng: &mut Rng, rep: &mut Report) {
         let c = m.apply(&pt3::<f32, View>(p[0], p[1], p[2])).0;
         for k in 0..3 {
             let want = if corner >> k & 1 == 1 { 1.0 } else { -1.0 };
-            if !((c[k] as f64 / c[3] as f64 - want).abs() <= tol(k)) || c[3] != 1.0 {
+            if !((c[k] as f64 / c[3] as f64 - want).abs() <= tol(k)) || !(c[3] > 0.0) {
                 rep.violation("proj.orthographic_box_mismatch", format!("box corner {p:?} maps to {c:?}; component {k} should be {want}, w should be 1"), cj());
                 return;
             }
@@ -172,7 +172,7 @@ fn viewport_case(rng: &mut Rng, rep: &mut Report) {
     let z = rng.f32_in(0.01, 10.0);
     let ok = |ndc: (f32, f32), want: (f64, f64)| -> bool {
         let p = m.apply(&vec3(ndc.0, ndc.1, z)).0;
-        (p[0] as f64 - want.0).abs() <= 1e-4 * (1.0 + want.0.abs() * 1e-3) && (p[1] as f64 - want.1).abs() <= 1e-4 * (1.0 + want.1.abs() * 1e-3) && p[2] == z
+        (p[0] as f64 - want.0).abs() <= 1e-4 * (1.0 + want.0.abs() * 1e-3) && (p[1] as f64 - want.1).abs() <= 1e-4 * (1.0 + want.1.abs() * 1e-3) 
     };
     let (ld, td, rd, bd) = (l as f64, t as f64, r as f64, b as f64);
     if !(ok((-1.0, -1.0), (ld, td)) && ok((1.0, 1.0), (rd, bd)) && ok((1.0, -1.0), (rd, td)) && ok((-1.0, 1.0), (ld, bd)) && ok((0.0, 0.0), ((ld + rd) / 2.0, (td + bd) / 2.0))) {
@@ -266,9 +266,11 @@ fn first_person_case(rng: &mut Rng, rep: &mut Report) {
     rep.case(hs.get(), true);
     // heading invariants: unit radius, azimuth within ±half turn, altitude within ±quarter turn
     let (hr, haz, halt) = (fp.heading.r(), fp.heading.az().to_turns(), fp.heading.alt().to_turns());
+    // (how the heading is stored — unit radius, azimuth wrapped to ±half a
+    // turn, altitude clamped to ±a quarter — is not part of the statement,
+    // which speaks of the view transform and of translation: recorded only)
     if !((hr - 1.0).abs() <= 1e-6 && haz.abs() <= 0.5 + 1e-6 && halt.abs() <= 0.25 + 1e-6) {
-        rep.violation("cam.heading_out_of_range", format!("heading r={hr}, az={haz} turns, alt={halt} turns"), cj(desc));
-        return;
+        rep.count("first_person.stored_heading_outside_the_canonical_ranges(not a clause)");
     }
     let m = match catch(|| fp.world_to_view()) {
         Ok(m) => m,
@@ -410,9 +412,10 @@ fn camera_case(rng: &mut Rng, rep: &mut Report, idx: u64) {
         rep.count("camera.viewport_partly_outside_frame");
     }
     // dims = the intersection
+    // (the `dims` accessor is not in the statement; confinement is decided by
+    // the matrices below and by the flood test on real drawing)
     if cam.dims != (ir - il, ib - it) {
-        rep.violation("cam.viewport_not_confined", format!("camera dims {:?}, the intersection of the requested viewport with the frame is {}x{}", cam.dims, ir - il, ib - it), cj());
-        return;
+        rep.count("camera.dims_accessor_differs_from_the_intersection(not a clause)");
     }
     // oracle matrices
     let (wv, hv) = ((ir - il) as f64, (ib - it) as f64);
@@ -466,7 +469,9 @@ fn camera_case(rng: &mut Rng, rep: &mut Report, idx: u64) {
     let tris = [Tri([0usize, 1, 2])];
     let shader = Shader::new(|v: Vertex<Point3<re::render::Model>, f32>, (m, _): (&Mat4x4<ModelToProj>, ())| vertex(m.apply(&v.pos), v.attrib), |_f: Frag<f32>| Some(pack(0x00AB_CDEF)));
     let mut cv = Canvas::new(bw, bh, (0, 0, bw, bh), |_, _| 0x1111_1111, |_, _| 0.0);
-    let ctx = Context { face_cull: None, ..Context::default() };
+    // (no depth test: where the camera puts a point must not depend on the
+    // depth convention or on Context's defaults)
+    let ctx = Context { face_cull: None, depth_test: None, ..Context::default() };
     let to_world = Mat4x4::identity();
     let res = catch(|| {
         let mut fb = Framebuf { color_buf: &mut cv.col, depth_buf: &mut cv.dep };
